@@ -62,6 +62,12 @@ func state_@NAME@(f *fnv, m map[@TYPE@]int, pool []@TYPE@) {
 	f.add64(cnt)
 }
 
+// cur_@NAME@ lives on and is returned by a getter: a key taken from a call result must be
+// copied into the map, later changes of the variable must not reach the stored key.
+var cur_@NAME@ @TYPE@
+
+func getcur_@NAME@() @TYPE@ { return cur_@NAME@ }
+
 func hist_@NAME@(seed uint64, steps int) string {
 	pool := pool_@NAME@()
 	rg := &rng{seed}
@@ -77,8 +83,12 @@ func hist_@NAME@(seed uint64, steps int) string {
 		x := rg.next()
 		i := int((x >> 8) % uint64(len(pool)))
 		switch x & 7 {
-		case 0, 1, 2:
+		case 0, 1:
 			m[pool[i]] = s
+		case 2:
+			cur_@NAME@ = pool[i]
+			m[getcur_@NAME@()] = s
+			cur_@NAME@ = pool[int((x>>40)%uint64(len(pool)))]
 		case 3:
 			delete(m, pool[i])
 		case 4:
@@ -266,8 +276,10 @@ func keySpecs(r *rand.Rand, nrandom int) []keySpec {
 	add("ptr", "*int", "var pv_a, pv_b int\nvar pv_arr [3]int\nvar pv_s = struct{ x, y int }{}\n", lines("&pv_a", "&pv_b", "&pv_a", "nil", "&pv_arr[0]", "&pv_arr[1]", "&pv_arr[0]", "&pv_s.x", "&pv_s.y", "&pv_s.x", "new(int)", "new(int)"))
 	add("ptrstruct", "*PS", "type PS struct{ a int }\nvar ps_a, ps_b PS\nvar ps_arr [2]PS\n", lines("&ps_a", "&ps_b", "&ps_a", "nil", "&ps_arr[0]", "&ps_arr[1]", "&ps_arr[0]", "new(PS)", "&PS{1}", "&PS{1}"))
 	add("chanint", "chan int", "var ch_a, ch_b = make(chan int), make(chan int, 1)\n", lines("ch_a", "ch_b", "ch_a", "nil", "make(chan int)"))
-	add("iface", "interface{}", "type IT1 int\ntype IT2 int\ntype IS struct{ a int }\nvar if_x int\n",
-		lines("nil", "int8(1)", "int16(1)", "int32(1)", "int64(1)", "uint8(1)", "1.0", "float32(1)", `"1"`, "IT1(1)", "IT2(1)", "true", "IS{1}", "IS{1}", "IS{2}", "&if_x", "&if_x", "[2]int{1, 2}", "[2]int{1, 2}", "[2]int8{1, 2}", "struct{ a int }{1}", "nan()", "complex(1, 0)", "'1'", "rune('1')", "byte('1')", `""`, "[0]int{}", "struct{}{}", "int64(4294967297)", "uint64(4294967297)", "localT1()", "localT2()", "localT1()"))
+	add("iface", "interface{}", "type IT1 int\ntype IT2 int\ntype IS struct{ a int }\nvar if_x int\nvar if_ch = make(chan int)\ntype IfCh chan int\ntype IfNA [2]int32\nvar if_pna = &IfNA{1, 2}\ntype IfS1 struct{ a int }\ntype IfS2 struct{ a int }\nvar if_ps = &IfS1{1}\n",
+		lines("nil", "int8(1)", "int16(1)", "int32(1)", "int64(1)", "uint8(1)", "1.0", "float32(1)", `"1"`, "IT1(1)", "IT2(1)", "true", "IS{1}", "IS{1}", "IS{2}", "&if_x", "&if_x", "[2]int{1, 2}", "[2]int{1, 2}", "[2]int8{1, 2}", "struct{ a int }{1}", "nan()", "complex(1, 0)", "'1'", "rune('1')", "byte('1')", `""`, "[0]int{}", "struct{}{}", "int64(4294967297)", "uint64(4294967297)", "localT1()", "localT2()", "localT1()",
+			"if_ch", "(<-chan int)(if_ch)", "(chan<- int)(if_ch)", "IfCh(if_ch)", "(chan int)(nil)", "(chan string)(nil)", "IfCh(nil)", "if_ch",
+			"if_pna", "(*[2]int32)(if_pna)", "if_ps", "(*IfS2)(if_ps)", "if_pna"))
 	add("ifacem", "Str", "type Str interface{ S() string }\ntype SA int\nfunc (a SA) S() string { return \"\" }\ntype SB int\nfunc (b SB) S() string { return \"\" }\ntype SC struct{ p *int }\nfunc (c SC) S() string { return \"\" }\nvar sc_i int\n",
 		lines("nil", "SA(1)", "SB(1)", "SA(1)", "SA(2)", "SC{&sc_i}", "SC{&sc_i}", "SC{nil}", "Str(SA(1))"))
 	add("arr2str", "[2]string", "", lines(`[2]string{"a$b", "c"}`, `[2]string{"a", "b$c"}`, `[2]string{"a", "b"}`, `[2]string{"a\\", "$b"}`, `[2]string{"a\\$", "b"}`, `[2]string{"", ""}`, `[2]string{"$", ""}`, `[2]string{"", "$"}`, `[2]string{"a", "b"}`))
